@@ -168,6 +168,14 @@ func runCase(c dlCase) (fail *vt.Fail, soft string) {
 		}
 		switch e.kind {
 		case "early", "consume":
+			if sub.Verdict == "fail" && t >= D-2*g-20*time.Millisecond {
+				if _, msgs := tskit.FailLines(sub.Log, rr.Files[i]); len(msgs) > 0 && strings.Contains(msgs[0], "timed out") {
+					// on a busy machine even a short command can still be running when the interrupt is due:
+					// then it did not "finish earlier" and being timed out is the documented outcome
+					rec.Class("deadline:short-script-still-running-at-interrupt", 1)
+					break
+				}
+			}
 			if sub.Verdict != "pass" || !ranAfter {
 				return vt.Failf("early-script-affected", "a script that finishes long before the deadline was reported %s (later line ran: %v)%s", sub.Verdict, ranAfter, ctx), ""
 			}
